@@ -1330,6 +1330,7 @@ def run(ctx):
     try:
         infos = regenerate()
         ctx.translated = infos
+        ctx.notes["code_facts"] = infos["facts"]["source"]
         ctx.obligation("translator:Gen.v", "translator", True, "%d items" % len(infos))
         translated = True
     except T.TranslationError as e:
@@ -1415,15 +1416,24 @@ def run(ctx):
 
 
 MANIFEST = {
-    "text": "Coq 8.16 model of the identifier walk (Identifier._add_value_to_hash_list over abstract object graphs, with RESOLUTION, the "
-            "rounding formula, the skipped-key rule and the join separator regenerated from the source on every run), of the object "
-            "shape of searches/models/priors and of the JSON reload; theorems for all objects: invariance under everything below "
-            "skipped keys (ids, labels, private state, creation order), reload invariance for the reloadable fragment, sensitivity "
-            "of the joined description to any visible single-position change in any context, separation of fixed values more than "
-            "1e-8 apart (exact arithmetic), with refutation witnesses for sharing, caller variable names, list-built collections, "
-            "fixed sub-models and the flat join; vm_compute correspondence with the running code token by token plus a direct oracle "
-            "on equal constructions (ids, copies, JSON, files written by save_all / a real fit, second process) and perturbations",
-    "note": "Trusted: Coq kernel + vm_compute, the translator, the live-object abstraction, str(float) and md5 as oracles/hypotheses. "
-            "Binary64 rounding is compared bit-for-bit by correspondence only; identifier_version config and md5 collisions are not covered.",
-    "technique": "machine-checked proof in Coq (translator-regenerated constants) + vm_compute correspondence + property oracle",
+    "text": "Coq 8.16 model of the identifier walk (Identifier._add_value_to_hash_list over abstract object graphs; RESOLUTION, the "
+            "rounding formula, the skipped-key rule, the join separator and four facts about neighbouring code are regenerated from "
+            "the source on every run, fail closed), of the object shape of searches / models / priors / arithmetic priors and of the "
+            "JSON reload. Theorems for all objects and contexts: the description and the exceptions of the walk depend only on "
+            "what `strip` keeps (nothing below ids, labels, private keys, unselected attributes; hence creation order, copies, "
+            "labels); reload invariance on the explicitly delimited reloadable fragment; a change of one token / of a separator-free "
+            "head token / from nothing to something, in ANY context of visible selected keys, changes the joined description (with "
+            "leaves for fixed values, ints, bools, strings, prior family and each prior parameter, class, search setting, search "
+            "class, tag); exact-arithmetic separation of values more than RESOLUTION apart. Refutation witnesses, replayed on the "
+            "code, for: sharing pattern invisible, caller variable names visible, list-built collections / fixed sub-models / "
+            "arithmetic priors changing or failing on reload, regrouping and '.'-join collisions. vm_compute correspondence token "
+            "by token and shape by shape with the running code, plus a direct oracle on equal constructions (ids, order, labels, "
+            "deepcopy, JSON, files written by save_all and by real fits read through SearchOutput, second process, non-identifying "
+            "settings, sub-resolution floats) and on every single-field perturbation class, for all eleven search classes",
+    "note": "Trusted: Coq kernel + vm_compute, the translator part of c07.py, the live-object abstraction of c07_impl.py, str(float) and "
+            "md5 as oracle / injectivity hypotheses. Binary64 rounding is compared bit-for-bit by correspondence only (the separation "
+            "theorem is over exact rationals). The sensitivity theorems are per perturbation in context, not global injectivity "
+            "(which is refuted). identifier_version config, md5 collisions and Array models are not covered. Seven genuine defects are "
+            "recorded as known findings (two of them with proposed repairs), two more were repaired in /repo during construction.",
+    "technique": "machine-checked proof in Coq (translator-regenerated constants and code facts) + vm_compute correspondence + property oracle",
 }
